@@ -14,7 +14,7 @@ out += ["", f"**Open known findings ({len(opened)}; printed as `KNOWN-FINDING:` 
 for x in sorted(opened, key=lambda x: x["property"]):
     out.append(f"| {x['property']} | `{esc(x['key'])}` | {esc(x['what'])[:420]} |")
 findings = "\n".join(out)
-rows = ["| seed | breaks | needs to manifest | caught by (quick tier) | how |", "|---|---|---|---|---|"]
+rows = ["| seed | breaks | needs to manifest | caught by (quick tier, current checks) | how | at first run |", "|---|---|---|---|---|---|"]
 for m in sorted(glob.glob(str(V / "seeded" / "*" / "meta.json"))):
     d = json.loads(pathlib.Path(m).read_text())
     name = pathlib.Path(m).parent.name
@@ -24,7 +24,9 @@ for m in sorted(glob.glob(str(V / "seeded" / "*" / "meta.json"))):
         if r.get("exit"):
             caught.append(c)
             how.append("failing input on the implementation" if r.get("violation_lines") and not r.get("no_failing_input_found") else "proof/correspondence break (no failing input found)")
-    rows.append(f"| {name} | {esc(d.get('title') or d.get('what_changed',''))[:110]} | {esc(d.get('needs_to_manifest',''))[:140]} | {', '.join(caught) or '**missed**'} | {'; '.join(sorted(set(how)))} |")
+    fr = (d.get("first_run") or {}).get("detected_by")
+    first = "" if fr is None else ("caught" if any(r.get("exit") for r in fr.values()) else "missed")
+    rows.append(f"| {name} | {esc(d.get('title') or d.get('what_changed',''))[:110]} | {esc(d.get('needs_to_manifest',''))[:140]} | {', '.join(caught) or '**missed**'} | {'; '.join(sorted(set(how)))} | {first} |")
 seeded = "\n".join(rows)
 p = V / "DESIGN.md"
 s = p.read_text()
